@@ -450,6 +450,13 @@ def parse_config_file(args_dict):
         if grid:
             simulation['gridding_opts'] = grid
 
+    # Ensure there are no unknown sections.
+    known = ['files', 'simulation', 'solver_opts', 'data', 'layered',
+             'noise_opts', 'gridding_opts']
+    unknown = [sec for sec in cfg.sections() if sec not in known]
+    if unknown:
+        raise TypeError(f"Unexpected section(s) in config file: {unknown}.")
+
     # Return.
     out = {'files': files, 'simulation_options': simulation, 'data': data,
            'noise_kwargs': noise_kwargs}
